@@ -221,7 +221,7 @@ fn main() {
                 ctx.exhaustive.insert(format!("all functions, n={}", n), true);
             }
             "sampled" => {
-                let reps = (if thorough { 60 } else { 4 }) / std::cmp::max(1, n.saturating_sub(6));
+                let reps = (if thorough { 600 } else { 6 }) / std::cmp::max(1, n.saturating_sub(6));
                 for _ in 0..std::cmp::max(1, reps) {
                     for fam in Fam::ALL {
                         let f = gen::gen(fam, n, &mut rng);
@@ -236,7 +236,7 @@ fn main() {
                 }
             }
             _ => {
-                let reps = if thorough { 30000 } else { 2500 };
+                let reps = if thorough { 400000 } else { 3000 };
                 for _ in 0..reps {
                     let nn = rng.range(0, 10);
                     let la = rng.range(0, 8);
